@@ -330,6 +330,9 @@ UNITS = {
             I(RAW, r'^impl < T , A : Allocator > RawTable < T , A >$', 'into_iter_from', impl='RawTable<T, A>|<T, A: Allocator>', key='RawTable::into_iter_from'),
             I(RAW, r'^impl < T , A : Allocator > IntoIterator for RawTable < T , A >$', 'into_iter', impl='RawTable<T, A>|<T, A: Allocator>', key='RawTable::into_iter'),
             I(RAW, r'^impl < T , A : Allocator > Drop for RawIntoIter < T , A >$', 'drop', impl='RawIntoIter<T, A>|<T, A: Allocator>', key='RawIntoIter::drop'),
+            dict(I(RAW, r'^impl RawTableInner$', 'prepare_resize', impl='RawTableInner', key='prepare_resize::guard'),
+                 closure='guard(new_table, move |self_| {',
+                 new_sig='unsafe fn prepare_resize_guard<A: Allocator>(self_: &mut RawTableInner, alloc: &A, table_layout: TableLayout)'),
         ],
     ),
     # C11: clone_from_impl: control bytes verbatim, every FULL bucket a clone of the source's
